@@ -457,17 +457,44 @@ def hist_events():
     return [(0, e) for e in HIST_BAD] + [(m, e) for m in (0, 1) for e in HIST_GOOD]
 
 
+def querent_goldens():
+    """the answer to every event as the ONLY query its process ever made (one fresh Python process per event)"""
+    import json
+    import subprocess
+    import sys
+    from mc.engine.harness import VERIF
+    procs = [subprocess.Popen([sys.executable, '-m', 'mc.checks.c16', 'golden', str(k)], cwd=VERIF, stdout=subprocess.PIPE,
+                              stderr=subprocess.PIPE, text=True) for k in range(len(hist_events()))]
+    out = []
+    for pr in procs:
+        o, e = pr.communicate(timeout=600)
+        if pr.returncode != 0:
+            raise RuntimeError('golden process failed: ' + e[-300:])
+        out.append(json.loads(o))
+    return out
+
+
+def golden_main(k):
+    import json
+    import sys
+    from pybufrkit.dataquery import DataQuerent, NodePathParser
+    m, e = hist_events()[k]
+    msgs = _history_messages()
+    sys.stdout.write(json.dumps(list(_hist_query(DataQuerent(NodePathParser()), msgs[m], e))))
+    return 0
+
+
 def run_querent_histories(args):
     """all histories of exactly `length` queries (events = (message, expression), rejected expressions included) on ONE
     DataQuerent / NodePathParser; every step must answer like a fresh querent does"""
     from pybufrkit.dataquery import DataQuerent, NodePathParser
-    firsts, length = args
+    firsts, length = args[:2]
     p = Partial()
     msgs = _history_messages()
     ev = hist_events()
     golden = {}
-    for m, e in ev:
-        golden[(m, e)] = _hist_query(DataQuerent(NodePathParser()), msgs[m], e)
+    for k, (m, e) in enumerate(ev):
+        golden[(m, e)] = tuple(args[2][k]) if len(args) > 2 else _hist_query(DataQuerent(NodePathParser()), msgs[m], e)
         if e in HIST_BAD and golden[(m, e)][0] != 'PathExprParsingError':
             p.violation('history-golden|rejected-expression-accepted', {'expr': e, 'history': []}, '%r: %r' % (e, golden[(m, e)]))
         if e in HIST_GOOD[:8] and golden[(m, e)][0] != 'ok':
@@ -506,7 +533,7 @@ def replay_history(case):
     for m, e in h:
         got = _hist_query(q, msgs[m], e)
     m, e = h[-1]
-    gold = _hist_query(DataQuerent(NodePathParser()), msgs[m], e)
+    gold = tuple(querent_goldens()[hist_events().index((m, e))])
     if got != gold:
         prev = h[-2][1] if len(h) > 1 else None
         return [{'sig': 'history|%s|%s' % ('after-rejected' if prev in HIST_BAD else 'after-query', got[0]),
@@ -652,7 +679,8 @@ def main(tier, seed):
                                           selectors=len(LATTICE_SELECTORS if env.get('lattice') else SELECTORS) - 1, **env))
     ev = hist_events()
     hl = 3 if tier == 'quick' else 4
-    p = merge_all(run_shards(run_querent_histories, [([i], hl) for i in range(len(ev))]))
+    qgold = querent_goldens()
+    p = merge_all(run_shards(run_querent_histories, [([i], hl, qgold) for i in range(len(ev))]))
     rep.add_part('querent-histories', p, bounds={'events': len(ev), 'history_length': hl, 'rejected_expressions': HIST_BAD,
                                                   'queries': HIST_GOOD, 'messages': ['4 subsets uncompressed', '4 subsets compressed']},
                  rule='every history of queries on one DataQuerent(NodePathParser()) object; each step is compared with the '
@@ -678,3 +706,9 @@ def main(tier, seed):
     rep.add_part('cli', p, bounds={'invocations': p.n['exec'], 'modes': ['text (two files)', '-j', '-j -n'],
                                    'compiled_template_cache_max': [None, 2]})
     return rep.finish()
+
+
+if __name__ == '__main__':
+    import sys
+    if len(sys.argv) > 2 and sys.argv[1] == 'golden':
+        sys.exit(golden_main(int(sys.argv[2])))
